@@ -58,32 +58,39 @@ theorem C01_collateral_only {t : Tx} {l : List TxIn} (h : compileCollateral t = 
   obtain ⟨e, he, hre⟩ := List.mem_flatMap.mp hr
   exact ⟨e, (List.mem_filter.mp he).1, r, hre, rfl⟩
 
-/-- **A position that holds one number**: what `expr_into_number` accepts is a number, or a value with exactly one
-entry whose amount is one (the entry's amount may itself be such a value - `Ada(fees)`); a value of no class or of
-several classes is refused. -/
-theorem C02_scalar_shape (e : Expr) (n : Int) (h : exprIntoNumber e = .ok n) :
-    e = .leaf (.number n) ∨ (∃ p a, e = .node .assets [p, a, .leaf (.number n)]) ∨
-    (∃ p a p' a', e = .node .assets [p, a, .node .assets [p', a', .leaf (.number n)]]) := by
-  unfold exprIntoNumber at h
-  split at h
-  · cases h; exact Or.inl rfl
-  · cases h; exact Or.inr (Or.inl ⟨_, _, rfl⟩)
-  · cases h; exact Or.inr (Or.inr ⟨_, _, _, _, rfl⟩)
-  · cases h
+/-- The shapes `expr_into_number` accepts: a number, or a value with exactly one entry whose amount is again
+such a shape - to any depth (`Ada(fees)`, `Ada(Ada(fees))`, ...). -/
+inductive ScalarOf : Expr → Int → Prop
+  | num (n : Int) : ScalarOf (.leaf (.number n)) n
+  | one (p a e : Expr) (n : Int) : ScalarOf e n → ScalarOf (.node .assets [p, a, e]) n
 
-theorem C02_no_class_refused : exprIntoNumber (.node .assets []) = .err "CoerceError:Number" := rfl
+/-- **A position that holds one number**: `expr_into_number` answers `n` exactly on the shapes `ScalarOf _ n`
+(no bound on the nesting); a value of no class or of several classes is refused. -/
+theorem C02_scalar_shape (e : Expr) (n : Int) : exprIntoNumber e = .ok n ↔ ScalarOf e n := by
+  constructor
+  · intro h
+    fun_induction exprIntoNumber e with
+    | case1 m => cases h; exact .num _
+    | case2 p a e ih => exact .one _ _ _ _ (ih h)
+    | case3 e h1 h2 => cases h
+  · intro h
+    induction h with
+    | num n => simp [exprIntoNumber]
+    | one p a e n _ ih => simp [exprIntoNumber, ih]
+
+/-- Whatever it is given, `expr_into_number` answers a number or the one coercion error - never anything else. -/
+theorem C02_scalar_total (e : Expr) :
+    (∃ n, exprIntoNumber e = .ok n) ∨ exprIntoNumber e = .err "CoerceError:Number" := exprIntoNumber_total e
+
+theorem C02_no_class_refused : exprIntoNumber (.node .assets []) = .err "CoerceError:Number" := by
+  simp [exprIntoNumber]
 
 theorem C02_two_classes_refused (p a q p' a' q' : Expr) :
     exprIntoNumber (.node .assets [p, a, q, p', a', q']) = .err "CoerceError:Number" := by
-  cases h : exprIntoNumber (.node .assets [p, a, q, p', a', q']) with
-  | ok n =>
-    rcases C02_scalar_shape _ _ h with h' | ⟨_, _, h'⟩ | ⟨_, _, _, _, h'⟩ <;> simp at h'
-  | err s =>
-    unfold exprIntoNumber at h
-    split at h <;> first | (cases h; done) | (cases h; rfl) | skip
-    all_goals simp_all
-  | panic s =>
-    unfold exprIntoNumber at h
-    split at h <;> cases h
+  simp [exprIntoNumber]
+
+/-- Non-vacuity: a number three entries deep is read. -/
+example : exprIntoNumber (.node .assets [.leaf .none, .leaf .none, .node .assets [.leaf .none, .leaf .none,
+    .node .assets [.leaf .none, .leaf .none, .leaf (.number 7)]]]) = .ok 7 := by simp [exprIntoNumber]
 
 end Tx3
